@@ -105,6 +105,15 @@ CHECKS = {
    note="trusted: pv/ref/members.py (self-tested members), pv/canon.py; members come from constructive families (exotic members "
         "are out of reach; C04's reference comparison is the complementary guard)",
    tech="runtime evaluation of generated constraint lists on concrete executions of real class members (conservation-style oracle)"),
+ "C08": dict(cat="exploration", ref="DESIGN 3/C08",
+   text="Each of the 8 primitive steps is called with every option, random step sizes/accuracies, leaf/combination/evaluated "
+        "start points, on leaf and composite functions; oracle A compares returned tuple, added samples and added side constraints "
+        "(canonical functional set equality) with a specification transcribed from the step documentation, and that caller-owned "
+        "arguments are untouched; oracle B runs the real operation on real functions (exact prox, exact line search, LMO, Bregman "
+        "steps, inexact proxes and eps-subgradients whose true gap comes from the conjugate) and requires every recorded side and "
+        "class constraint to hold, tight where the construction is tight.",
+   note="trusted: the specifications in pv/checks/c08.py (documentation transcription), pv/ref/members.py, pv/ref/sym.py",
+   tech="runtime contracts on step calls against a reference specification + concrete executions on real functions"),
 }
 NOT_YET = {}
 
